@@ -40,7 +40,21 @@ Local Open Scope N_scope.
    Partial: (1) hypothesis normalb g - it FAILS for the deviation dflt-leaflist-partial (witness below); the correspondence run evaluates it on every tree libyang produces and reports a tree that is not
    normal; C07_implicit_exact_partial proves it for freshly parsed input. (2) That the second validation does not end in
    an error (mandatory / min-elements / duplicate checks pass again, fuel) is not proved here; the correspondence run and
-   the API oracle validate-idem observe it. *)
+   the API oracle validate-idem observe it.
+   WHAT SEPARATES IT FROM THE FULL STATEMENT "for every f: validate (validate f) = validate f with an empty change set":
+     (a) normalb sch g. Discharged by proof for edited input (C07_validate_idempotent_edited, any tree after edits that
+         flag what they touch) and for freshly parsed input (_fresh); NOT dischargeable in general: the C-side reason is
+         the open finding dflt-leaflist-partial (lyd_new_implicit adds leaf-list defaults only when NO instance exists;
+         replayed on every run, still present at libyang c545a4e) - the former second reason, dflt-nested-case-leftover,
+         was removed by 357db45 and its hypothesis went with it. The later fixes do not bear on (a): 7ad8277 concerns
+         the ORDER of top-level nodes (C07_validate_canon / property C04), 7b3176d, 6d13b8c, 3ea8124 concern `when`,
+         which Implicit.v does not model (see WhenRes.v below).
+     (b) "the second validation answers". No C-side reason is known (no generated history ever showed a second
+         validation failing other than through finding vdiff-np-recreate, which needs the diff argument); what is
+         missing is a proof that Implicit.level returns Ok on a normal tree (duplicate check, the fuel bounds dfuel /
+         cfuel) and that check_level accepts g again after np_set changed container flags.
+     (c) chc_okb sch: well-formedness of the choice chains of the schema encoding, executable, checked on every
+         generated schema (field K of the correspondence run); not a restriction on libyang. *)
 Theorem C07_validate_idempotent_partial : forall sch f g d,
   chc_okb sch = true ->
   validate_all sch f = Ok (g, d) -> normalb sch g = true ->
@@ -55,12 +69,21 @@ Print Assumptions C07_validate_idempotent_partial.
    LYD_PARSE_ONLY yields for a document without default attributes), canonical -
    a successful validation reaches THE normal form: the default-flagged nodes of the result are exactly the defaults RFC 7950
    requires for its explicit nodes (normalb), and the explicit content is that of the input (nothing explicit is deleted,
-   nothing explicit is made up). Partial: histories (validation after edits of a validated tree) are not covered by a proof -
-   the two deviations below live there; the correspondence run evaluates normalb on every tree of every generated history. *)
+   nothing explicit is made up). Partial: freshly parsed canonical input only; histories are covered by
+   C07_implicit_exact_edited_partial below (which drops Canon but not the conclusion strip g = strip f - edits may make
+   validation delete explicit nodes of a superseded case).
+   WHAT SEPARATES IT FROM THE FULL STATEMENT "for every f": Canon + freshb (a special case of editedb, see below) and
+   the treatment of the EMPTY tree: LYD_VALIDATE_PRESENT validates only modules that have data, so for f = [] nothing is
+   created and the result is the normal form iff the schema asks for no top-level implicit node - this is by design,
+   not a defect, and is now stated exactly (hypothesis f = [] -> normalb sch [] = true instead of f <> []). *)
 Theorem C07_implicit_exact_partial : forall sch f g d,
-  chc_okb sch = true -> Canon sch f -> freshb sch f = true -> f <> [] ->
+  chc_okb sch = true -> Canon sch f -> freshb sch f = true -> (f = [] -> normalb sch [] = true) ->
   validate_all sch f = Ok (g, d) -> normalb sch g = true /\ strip g = strip f.
-Proof. exact validate_fresh_normal. Qed.
+Proof.
+  intros sch f g d Hk Hc Hf He H. destruct f as [|x f0].
+  - cbn in H. inversion H; subst. split; [exact (He eq_refl)|reflexivity].
+  - apply (validate_fresh_normal sch (x :: f0) g d Hk Hc Hf); [discriminate|exact H].
+Qed.
 Print Assumptions C07_implicit_exact_partial.
 
 (* The same for EDITED data (Implicit.editedb, executable; freshly parsed canonical data are a special case,
@@ -76,31 +99,56 @@ Print Assumptions C07_implicit_exact_partial.
    Partial: the hypothesis excludes the remaining deviation dflt-leaflist-partial (one of several default leaf-list
    instances freed: the default set is not complete) and nodes that are new AND default (documents with default
    attributes parsed without validation, empty NP containers created by path); both are covered by the correspondence run
-   only. *)
+   only.
+   WHAT SEPARATES IT FROM THE FULL STATEMENT "for every f: a successful validation reaches the normal form": editedb,
+   i.e. exactly three input classes
+     (1) an INCOMPLETE set of default-flagged leaf-list instances, or default instances beside an OLD explicit one:
+         the conclusion is FALSE there (C07_implicit_exact_refuted_leaflist; C defect dflt-leaflist-partial, open,
+         still reproduced at c545a4e) - this part of the hypothesis cannot go before libyang changes;
+     (2) nodes that are new AND default: no counterexample is known (about 10% of the generated histories are of
+         this class and all reach the normal form); what is missing is the closed form of the node loop of
+         lyd_validate_new (ImplicitP.vnew_loop_form) for new default nodes, which the loop treats as superseding
+         older defaults of the same schema node;
+     (3) structural well-formedness (nodes under their schema parent, terms without children, NP container flag iff
+         its children are default): holds for every tree libyang builds, executable, evaluated on every generated
+         tree (field H).
+   None of the libyang fixes since (7ad8277 order of top-level nodes, 7b3176d / 6d13b8c / 3ea8124 when resolution)
+   touches these: the first is about Canon, which this theorem does not need, the others about `when`.
+   The empty tree is treated as in C07_implicit_exact_partial. *)
 Theorem C07_implicit_exact_edited_partial : forall sch f g d,
-  chc_okb sch = true -> editedb sch f = true -> f <> [] ->
+  chc_okb sch = true -> editedb sch f = true -> (f = [] -> normalb sch [] = true) ->
   validate_all sch f = Ok (g, d) -> normalb sch g = true.
-Proof. exact validate_edited_normal. Qed.
+Proof.
+  intros sch f g d Hk Hed He H. destruct f as [|x f0].
+  - cbn in H. inversion H; subst. exact (He eq_refl).
+  - apply (validate_edited_normal sch (x :: f0) g d Hk Hed); [discriminate|exact H].
+Qed.
 Print Assumptions C07_implicit_exact_edited_partial.
 
-(* edit, validate, validate: the second validation changes nothing and reports an empty change list *)
+(* edit, validate, validate: the second validation changes nothing and reports an empty change list (also for the empty
+   tree, which LYD_VALIDATE_PRESENT leaves alone: the hypothesis f <> [] of earlier versions is gone) *)
 Theorem C07_validate_idempotent_edited : forall sch f g d g' d',
-  chc_okb sch = true -> editedb sch f = true -> f <> [] ->
+  chc_okb sch = true -> editedb sch f = true ->
   validate_all sch f = Ok (g, d) -> validate_all sch g = Ok (g', d') -> g' = g /\ d' = [].
 Proof.
-  intros sch f g d g' d' Hk He Hne H1 H2.
-  exact (validate_normal_fixpoint sch g g' d' Hk (validate_edited_normal sch f g d Hk He Hne H1) H2).
+  intros sch f g d g' d' Hk He H1 H2. destruct f as [|x f0].
+  - cbn in H1. inversion H1; subst. cbn in H2. inversion H2; subst. split; reflexivity.
+  - assert (Hne : x :: f0 <> []) by discriminate.
+    exact (validate_normal_fixpoint sch g g' d' Hk (validate_edited_normal sch (x :: f0) g d Hk He Hne H1) H2).
 Qed.
 Print Assumptions C07_validate_idempotent_edited.
 
-(* parse, validate, validate: the second validation of freshly parsed data changes nothing and reports nothing *)
+(* parse, validate, validate: the second validation of freshly parsed data changes nothing and reports nothing (no
+   f <> [] any more) *)
 Theorem C07_validate_idempotent_fresh : forall sch f g d g' d',
-  chc_okb sch = true -> Canon sch f -> freshb sch f = true -> f <> [] ->
+  chc_okb sch = true -> Canon sch f -> freshb sch f = true ->
   validate_all sch f = Ok (g, d) -> validate_all sch g = Ok (g', d') -> g' = g /\ d' = [].
 Proof.
-  intros sch f g d g' d' Hk Hc Hf Hne H1 H2.
-  destruct (validate_fresh_normal sch f g d Hk Hc Hf Hne H1) as [Hn _].
-  exact (validate_normal_fixpoint sch g g' d' Hk Hn H2).
+  intros sch f g d g' d' Hk Hc Hf H1 H2. destruct f as [|x f0].
+  - cbn in H1. inversion H1; subst. cbn in H2. inversion H2; subst. split; reflexivity.
+  - assert (Hne : x :: f0 <> []) by discriminate.
+    destruct (validate_fresh_normal sch (x :: f0) g d Hk Hc Hf Hne H1) as [Hn _].
+    exact (validate_normal_fixpoint sch g g' d' Hk Hn H2).
 Qed.
 Print Assumptions C07_validate_idempotent_fresh.
 
@@ -232,7 +280,18 @@ Print Assumptions C07_change_set_exact_refuted.
    consistent - sound default flags (C07_dflt_flag_sound), NP container flagged iff all children are (normal form) - and
    no explicit leaf-list instance equals one default value while the leaf-list as a whole differs from its default (the
    deviation below). LYD_PRINT_KEEPEMPTYCONT (not an RFC notion) is off; with it the printer is only tied by the
-   correspondence run. *)
+   correspondence run.
+   WHAT SEPARATES IT FROM THE FULL STATEMENT "for every tree": wd_wf_forest, three clauses -
+     (1) no explicit leaf-list instance equal to ONE of several default values while the leaf-list differs from its
+         default: the conclusion is FALSE there (C07_wd_modes_rfc6243_refuted; C defect wd-leaflist-partial-default,
+         lyd_is_default works per instance; open, still reproduced at c545a4e) - cannot go before libyang changes;
+     (2) sound default flags: a property of the producer, proved for validation and lyd_new_implicit_all
+         (C07_dflt_flag_sound, _implicit) - for trees made by these two the clause could be discharged, the lemma
+         "validate_all preserves / establishes wd_wf_forest" is not written;
+     (3) NP container flag iff all children default: part of the normal form (normalb), so it holds for the result of
+         every validation covered by C07_implicit_exact_edited_partial.
+   No libyang fix since touched the printer's selection (7ad8277 / 7b3176d / 6d13b8c / 3ea8124 are about insertion order and
+   when resolution). *)
 Theorem C07_wd_modes_rfc6243_partial : forall sch mode f,
   wd_wf_forest sch f = true -> wd_print_forest sch mode false f = rfc_view_forest sch mode false f.
 Proof. exact wd_forest_rfc. Qed.
@@ -281,6 +340,30 @@ Theorem C07_when_resolution_phases : forall p w Q1 Q2 w1 w2,
   wrun p w Q1 = Done w1 -> wrun p w1 Q2 = Done w2 -> wrun p w (Q1 ++ Q2) = Done w2.
 Proof. exact wrun_split. Qed.
 Print Assumptions C07_when_resolution_phases.
+
+(* the entry of lyd_new_implicit_tree / _module / _all - only nodes the call created are queued, all marked was-true -
+   never ends in an error and never with unresolved nodes: false conditions delete *)
+Theorem C07_when_resolution_implicit_entry : forall p w Q,
+  acyclicb p = true -> forallb snd Q = true -> exists w', wrun p w Q = Done w'.
+Proof. exact wrun_all_true_done. Qed.
+Print Assumptions C07_when_resolution_implicit_entry.
+
+(* HOW THIS LAYER RELATES TO Implicit.validate_all - stated, not proved. libyang's validation of data with `when` is
+     validate = final checks o when-resolution o (node loop + lyd_new_implicit);
+   Implicit.validate_all is the outer two without the middle one, WhenRes.run is the middle one on a flat world. On the
+   common subset (one level of leaves, world_of g = the (sid, value) entries of g, queue_of g = its conditional nodes,
+   default nodes and nodes validated before marked was-true) the missing statement is
+     validate_when sch p f := validate_all sch f >>= fun (g, d) => wrun p (world_of g) (queue_of g)
+     CONJECTURE  validate_when sch p f = Done w  ->  validate_when sch p (forest_of w) = Done w
+   i.e. the second validation creates exactly the default nodes the first resolution deleted (completeness of
+   lyd_new_implicit, ImplicitP.implicit_complete) and the resolution deletes exactly them again (run_complete with the
+   stable solution D of the first run - C07_when_resolution_idempotent covers the case D = []). What is missing is the
+   lemma that validate_all of (normal tree minus default nodes D) gives the normal tree back - uniqueness of the normal
+   form for a given explicit content - and the translation forest <-> world. The open finding when-autodel-default-case
+   shows the conjecture is FALSE as soon as choices are in the subset (an explicit case node deleted by the resolution
+   needs lyd_new_implicit to run again), so the subset must exclude when on case members. The T2 runner of component
+   whenres computes exactly this composition (missing defaults created first, then wrun) and agrees with libyang on
+   every generated history. *)
 
 (* the same three statements for ANY conditions that read only their declared dependencies, acyclic by some rank *)
 Theorem C07_when_resolution_generic : forall (val : Type) (cond : nat -> list (nat * val) -> bool) (deps : nat -> list nat)
